@@ -71,6 +71,9 @@ def make_entries(fmt, n, lens, rng):
             out.append(f"c{num}\t{num}\t{int(num) + 5}\tp{i}\t{i}\t.\t{i}.5\t-1\t-1\t{i}\n")
         elif fmt == "vcf":
             out.append(f"c{num}\t{num}\t.\t{_w(rng, l)}\t{_w(rng, 1)}\t.\tPASS\t.\n")
+        elif fmt in ("vcfgt", "vcfpgt"):
+            sep = "|" if fmt == "vcfpgt" or i % 2 else "/"
+            out.append(f"c{num}\t{num}\t.\t{_w(rng, l)}\t{_w(rng, 1)}\t.\tPASS\t.\tGT\t0{sep}1\t{i % 2}{sep}{(i + 1) % 2}\n")
         elif fmt == "sam":
             tags = "\tNM:i:1" if i % 2 else ""
             out.append(f"r{num}\t0\tc1\t{num}\t60\t{l}M\t*\t0\t0\t{_w(rng, l)}\t{'I' * l}{tags}\n")
@@ -88,6 +91,8 @@ def make_entries(fmt, n, lens, rng):
             raise ValueError(fmt)
     if fmt == "vcf":
         header = "##fileformat=VCFv4.2\n#CHROM\tPOS\tID\tREF\tALT\tQUAL\tFILTER\tINFO\n"
+    if fmt in ("vcfgt", "vcfpgt"):
+        header = "##fileformat=VCFv4.2\n#CHROM\tPOS\tID\tREF\tALT\tQUAL\tFILTER\tINFO\tFORMAT\tS0\tS1\n"
     if fmt == "sam" and n % 2 == 0:
         header = "@HD\tVN:1.0\n@SQ\tSN:c1\tLN:100000\n"
     return out, header
@@ -111,6 +116,9 @@ def _buffer_type(fmt):
         return db.NarrowPeakBuffer, ".narrowPeak"
     if fmt == "vcf":
         return VCFBuffer, ".vcf"
+    if fmt in ("vcfgt", "vcfpgt"):
+        from bionumpy.io.vcf_buffers import VCFMatrixBuffer, PhasedVCFMatrixBuffer
+        return (VCFMatrixBuffer if fmt == "vcfgt" else PhasedVCFMatrixBuffer), ".vcf"
     if fmt == "sam":
         return SAMBuffer, ".sam"
     if fmt == "gtf":
@@ -172,7 +180,7 @@ def cases(tier, rng):
             yield {"op": "chunks", "fmt": fmt, "mode": rng.choice(["seek", "carry"]), "file": [ord(c) for c in text], "k": k,
                    "longest": max(len(e) for e in ents), "n": n}
     # --- entry level: formats x gz x nl x crlf x lazy x k
-    fmts = ["bed", "bed6", "bdg", "narrowPeak", "vcf", "sam", "gtf", "fastq", "fasta2line", "fasta", "fasta3"]
+    fmts = ["bed", "bed6", "bdg", "narrowPeak", "vcf", "vcfgt", "vcfpgt", "sam", "gtf", "fastq", "fasta2line", "fasta", "fasta3"]
     for fmt in fmts:
         for n in ((0, 1, 2, 3, 4) if big else (1, 2, 3)):
             lens_choices = list(itertools.product((1, 2, 5), repeat=min(n, 2))) if n else [()]
@@ -187,7 +195,8 @@ def cases(tier, rng):
                 L = len(body)
                 combos = list(itertools.product((False, True), (True, False), (False, True), (True, False)))
                 if not big:
-                    combos = rng.sample(combos, 4)
+                    must = [(False, False, True, True), (True, False, False, False)]   # (gz, nl, crlf, lazy): CRLF without terminator; gzip without newline
+                    combos = must + rng.sample([x for x in combos if x not in must], 3)
                 for gz, nl, crlf, lazy in combos:
                     all_ks = list(range(1, L + 3))
                     if big and L <= 60:
@@ -222,6 +231,8 @@ def to_py(v):
         return table_rows(v)
     if isinstance(v, EncodedRaggedArray):
         return [str(x) for x in v.tolist()]
+    if isinstance(v, EncodedArray) and v.ndim == 2:
+        return [v[i].to_string() for i in range(v.shape[0])]
     if isinstance(v, EncodedArray):
         return [chr(int(x)) if False else str(x) for x in v.tolist()] if v.ndim else str(v.tolist())
     if isinstance(v, RaggedArray):
